@@ -35,6 +35,7 @@ def check(ctx):
     ctx.run(sched_rel.check_topo)
     ctx.run(sched_worker.check_clock_src)
     ctx.run(sched_rel.check_graph_whole)
+    ctx.run(sched_rel.check_graph_rebound)
 
 
 from ..variants import sched as _v   # noqa: E402
